@@ -39,6 +39,7 @@ def run(ctx):
             xml_rules.record_name_tables(ctx, prog, "R2")
             xml_rules.type_attributes(ctx, prog, "R2")
             xml_rules.inverse_maps(ctx, prog, "R7", "R7", "R7")
+            xml_rules.escaping_gate(ctx, prog, "R3")
         header_rules.publication_order(ctx, prog, "R4")
         pcw_rules.data_offset_provenance(ctx, prog, "R5")
         pcw_rules.packet_rules(ctx, prog, "R5", "R5", "R5")
